@@ -36,6 +36,7 @@ class NetSim:
         self.stop = False
         self.results = []
         self.last_activity = 0
+        self.t_limit = None
         for i, nd in enumerate(nodes):
             name = "n%d" % i
             c = sim.Chip(self.air, name)
@@ -171,6 +172,13 @@ class NetSim:
             o, chip, s = self.objs[name], self.chips[name], self.s
             me = s.cur
             while not self.stop:
+                if self.t_limit is not None and s.now > self.t_limit:
+                    # the network never becomes quiet (e.g. a frame bounces between two nodes for ever): an observation, not a
+                    # simulation that runs until the memory is full
+                    self.ev.append(dict(k="hang", n=name, job=-3, t=s.now // 1000, exc="livelock"))
+                    self.stop = True
+                    s.abort = True
+                    return
                 if chip.rx:
                     # (virtual-time watchdog also around the node's own polling: an update() that never returns must end the
                     # simulation with a "hang" observation, not hang the check)
@@ -251,6 +259,8 @@ class NetSim:
     def run(self, jobs, real_timeout=None, scripts=None):
         self.jobs = jobs
         t0 = self.s.boot_t          # script times are relative to the start of the run
+        last_script = max([at for v in (scripts or {}).values() for (at, _) in v] + [0])
+        self.t_limit = t0 + last_script + (60 + 5 * len(jobs)) * 1_000_000_000 + sum(j.get("budget_ms", 4000) for j in jobs) * 2_000_000
         self.scripts = {k: sorted([(t0 + at, fn) for (at, fn) in v], key=lambda x: x[0]) for k, v in (scripts or {}).items()}
         for name in self.objs:
             self.s.spawn(self._loop(name), name)
